@@ -266,8 +266,9 @@ func (s *Streamer) parseEvents(ctx context.Context, events <-chan replication.Bi
 			_log.Debugf("parseEvents pos: %+v binlog event is a table map event, tableID: %v table map: %+v",
 				pos, tableID, *tm)
 
-			if _, ok = tablesMaps[tableID]; ok {
-				tablesMaps[tableID].tableMap = tm
+			if tc, ok := tablesMaps[tableID]; ok &&
+				tc.table.Name() == NewMysqlTableName(tm.Database, tm.Name) {
+				tc.tableMap = tm
 				continue
 			}
 
